@@ -654,10 +654,18 @@ def replay_threads(payload, attempts=6):
 def run(ctx):
     r = ctx.rng.fork("c17")
     ctx.cov["rule"] = ("A: every operation history `new` + up to %d operations over {new, nodisk, get n, death-after-creating-the-temporary-file n, death-during-write n} for %d name groups "
-                       "(plain / `.sql` inside / `/` / `./` / `../` / NUL / carriage return in the provider's text / unparsable text / quoting), plus random histories of 3-14 "
-                       "operations over %d names and %d crash points; model and implementation (real class, fresh temporary directory, crash = BaseException raised inside the "
+                       "(plain / `.sql` inside / `/` / `./` / `../` / absolute (below a sandbox directory) / NUL / `%%2F` next to `/` / empty, `.`, `..` / blank and non-ASCII / carriage "
+                       "return in the provider's text / unparsable text / quoting), 3 groups with FOREIGN FILES written into the directory (a legacy file with a raw blank / non-ASCII / "
+                       "lower-case-escape name next to the canonical file of the same table: the first must stay without effect, the second is trusted by the next process), plus random "
+                       "histories of 3-14 operations over %d names, %d crash points and 23 foreign directory entries (non-canonical stems, broken / overlong / non-UTF-8 escapes, temporary "
+                       "files, canonical files with the provider's text); model and implementation (real class, fresh temporary directory, crash = BaseException raised inside the "
                        "patched open/write/close) must agree; oracle = abstract cache (answer = parse of the provider's text, provider asked only when cold, nothing written "
-                       "above the directory); a failing history is shrunk and classified by the hazards left in it.  B: lineage of generated SELECT / INSERT…SELECT statements "
+                       "above the directory); a failing history is shrunk and classified by the hazards left in it.  A2 (file names): `QUOTE` = the file `save_to_disk` leaves for a table in a fresh "
+                       "directory, `STEM` = what `__init__` lists for a directory holding one entry, model (`Cache.enc`, `Cache.entryName`) vs real class on the name lists, every code point "
+                       "below U+0250, random strings over an alphabet of safe / separator / escape / non-ASCII pieces and random code points; oracle (independent of the library's quote): one "
+                       "path component without NUL, different tables different files, names of letters / digits / `_.-~` keep `<name>.sql`, every saved file is read back as its table, a "
+                       "generated entry is listed as table n exactly if it is n's file; entries with undecodable names (implementation only) must not disturb the instantiation; names "
+                       "whose file name exceeds 255 bytes (implementation only, outside the model): same oracle — F-C17-10.  B: lineage of generated SELECT / INSERT…SELECT statements "
                        "over %d table spellings with the provider cold / warm in memory / warm on disk in a new instance / without directory; oracle: same lineage, warm "
                        "provider never asked, cold provider asked only for named base tables, once, under one spelling.  C: histories of 2–5 lineage requests, each history in a worker process "
                        "of its own, over a pool in which every one of 5 names is a derived-table alias, a WITH name and a base table, with one provider+analyzer for the history and "
@@ -666,7 +674,7 @@ def run(ctx):
                        % (3 if ctx.quick else 4, len(GROUPS), len(NAMES), len(CRASHES), len(set(TABLES))))
     ctx.cov["proved"] = list(ctx.cov.get("proved", []))
     ctx.cov["validated_only"] = ["agreement of the cache model with tool.py (sampled histories)", "lineage requests: provider calls ⊆ named base tables (implementation only; "
-                                 "the lineage analyzers are not modelled here)", "atomicity of close / completeness of os.listdir (assumed)"]
+                                 "the lineage analyzers are not modelled here)", "atomicity of close / completeness of os.listdir (assumed)", "Cache.enc = urllib.parse.quote(·, safe=\"\") and Cache.entryName = the listing of __init__ (sampled names and directory entries)"]
     seqs, n_exh = histories(ctx, r)
     for f in ctx.findings:                       # witnesses of findings, fixed ones included: the regression corpus
         if "ops" in f.get("witness", {}):
